@@ -24,5 +24,9 @@ Spec == Init /\ [][Step]_vars
 AcceptedIsPrefix == st.acc <= out /\ st.acc <= pos + (IF mode = "shortWrite" THEN out ELSE 0)
 NoFalseSuccess == (done /\ k < out) => reterr
 ControlSucceeds == (done /\ k >= out) => (~reterr /\ st.acc = out)
+\* the behaviours of this model refine the typed module whose invariant Apalache proves inductive for all sizes
+Abs == INSTANCE WriterFaultsInd WITH acc <- st.acc, failed <- st.failed
+AbsSpec == Abs!Spec
+AbsInv == Abs!IndInv
 LogConsistent == WritesFollowDest(writes, 1, [acc |-> 0, failed |-> FALSE], k, mode)
 =============================================================================
